@@ -13,3 +13,4 @@ import QV.Drive.Comp
 import QV.Props.C02
 import QV.Props.C03
 import QV.Props.C06
+import QV.Props.C11
